@@ -23,7 +23,7 @@ from .. import refmodel as R
 from .. import resets as RS
 from ..choice import ChoiceRng
 from ..desc import FLOOR, mkstate, sdesc, tup
-from ..pool import pmap
+from ..pool import pmap, replay_in_new_interpreter
 from .c01 import ALL_COLORS, ALL_TYPES
 
 SIX = [Action.MOVE_FORWARD, Action.MOVE_BACKWARD, Action.MOVE_LEFT, Action.MOVE_RIGHT, Action.TURN_LEFT, Action.TURN_RIGHT]
@@ -265,7 +265,19 @@ def _work(job):
     return tot, fails
 
 
+def _job_fails(job):
+    from ..desc import tup
+    pts = [(n, {k: tup(v) for k, v in p.items()}, l) for n, p, l in job['pts']]
+    return _work((pts, job['limit']))[1]
+
+
 def replay(case):
+    if case['kind'] == 'job':
+        # the whole exploration job, in order (this is a fresh process when run from the command line)
+        for g in _job_fails(case['job']):
+            if dyn.same_case(case['inner'], g):
+                return g['message']
+        return None
     if case['kind'] == 'witness':
         params = {k: (tuple(v) if isinstance(v, list) else v) for k, v in case['params'].items()}
         return validate_witness(case['name'], params, case['script'], [(a, c) for a, c in case['path']])
@@ -292,7 +304,12 @@ def run(rep, tier, seed):
     tot = {}
     per_reset = {}
     fails = []
-    for t, fl in pmap(_work, jobs):
+    for ji, (t, fl) in enumerate(pmap(_work, jobs, fresh=True)):
+        for f in fl:
+            # the points this job ran up to and including the failing one: the replay of a failure that depends on
+            # what the process executed before it
+            upto = [i for i, (n, p, _) in enumerate(jobs[ji][0]) if n == f.get('name') and p == f.get('params')]
+            f['job'] = {'pts': [(n, p, l) for n, p, l in jobs[ji][0][:(upto[0] + 1 if upto else None)]], 'limit': limit}
         for k, v in t.items():
             if k == 'per_reset':
                 for n, c in v.items():
@@ -304,7 +321,7 @@ def run(rep, tier, seed):
         if f['kind'] == 'INTERNAL':
             raise SystemExit('INTERNAL: ' + f['message'])
     fails.sort(key=lambda f: f.get('simplicity', 0))
-    dyn.report_fails(rep, fails, replay, limit_per_sig=3)
+    dyn.report_fails(rep, fails, replay, limit_per_sig=3, job_replayer=lambda case: replay_in_new_interpreter('C14', case))
     rep.part('winnability', initial_states_per_reset=per_reset, **tot)
     rep.bounds = {'parameter_points': len(pts), 'valid_points': tot.get('valid', 0), 'outcome_limit_per_point': limit,
                   'shipped_point_limits_by_size': shipped_limit, 'max_shape': '7x7 + shipped' if tier == 'quick' else '9x9 + shipped'}
